@@ -1,0 +1,8 @@
+//go:build !verif
+
+package main
+
+import "github.com/WICG/webpackage/go/integrityblock"
+
+// verifWrapStrategy is the identity unless the tool is built with -tags verif.
+func verifWrapStrategy(s integrityblock.ISigningStrategy) integrityblock.ISigningStrategy { return s }
